@@ -197,7 +197,7 @@ func matches(sel reflect.Value, state []reflect.Value) int {
 }
 
 // elementsFor names 1..2 non-key fields.
-func elementsFor(t *rapid.T, f *gen.Func, label string) reflect.Value {
+func elementsFor(t *rapid.T, f *gen.Func, o gen.Opt, label string) reflect.Value {
 	names := gen.NonKeyFields(f)
 	el := reflect.New(f.ElementsType)
 	n := rapid.IntRange(1, 2).Draw(t, label+".elements#")
@@ -210,6 +210,13 @@ func elementsFor(t *rapid.T, f *gen.Func, label string) reflect.Value {
 		}
 		ef.Set(reflect.New(ef.Type().Elem()))
 		set++
+		// an element may name sub elements ("value":{"scale":{}})
+		if sub := ef.Elem(); o.NestedElements && sub.Kind() == reflect.Struct && sub.NumField() > 0 && rapid.Bool().Draw(t, fmt.Sprintf("%s.element%d.sub?", label, i)) {
+			sf := sub.Field(rapid.IntRange(0, sub.NumField()-1).Draw(t, fmt.Sprintf("%s.element%d.sub", label, i)))
+			if sf.Kind() == reflect.Ptr && sf.CanSet() {
+				sf.Set(reflect.New(sf.Type().Elem()))
+			}
+		}
 	}
 	if set == 0 {
 		// fall back to the first field the elements type shares with the item
@@ -313,16 +320,16 @@ func Update(t *rapid.T, f *gen.Func, state []reflect.Value, shape string, o gen.
 		u.DeleteSelector = sel
 	case DeleteElements:
 		u.Delete = true
-		u.DeleteElements = elementsFor(t, f, label)
+		u.DeleteElements = elementsFor(t, f, o, label)
 	case DeleteSelElements:
 		u.Delete = true
 		u.DeleteSelector = sel
-		u.DeleteElements = elementsFor(t, f, label)
+		u.DeleteElements = elementsFor(t, f, o, label)
 	case DeleteAndPartial:
 		u.Delete = true
 		u.DeleteSelector = sel
 		if CapsOf(f).Elements && rapid.IntRange(0, 2).Draw(t, label+".deleteElements?") == 0 {
-			u.DeleteElements = elementsFor(t, f, label)
+			u.DeleteElements = elementsFor(t, f, o, label)
 		}
 		u.Partial = true
 		// the partial part comes with identifiers, with a selector of its own or without either
